@@ -94,6 +94,14 @@ func GenMultiServiceFile(r *R, idx int, o RuntimeOpts) *ir.Request {
 				}
 				m.Headers = append(m.Headers, ir.Header{Name: "X-" + s.Name + "-" + m.Name,
 					Type: Pick(rh, []string{"string", "string", "integer", "boolean"}), Required: true})
+				// a method may re-declare a SERVICE header with another type / format (it then shadows the
+				// service declaration on this route only: the other routes keep the service's; compiles
+				// since /repo 50d5457 emits each typed helper once)
+				if o.OverrideServiceHeader && len(s.Headers) > 0 && rh.P(1, 3) {
+					sh := Pick(rh, headerShapes)
+					ov := s.Headers[rh.Intn(len(s.Headers))]
+					m.Headers = append(m.Headers, ir.Header{Name: ov.Name, Type: sh.typ, Format: sh.format, Required: true})
+				}
 			}
 		}
 	}
